@@ -57,14 +57,14 @@ Definition rune_string (c : Z) : gostr := [if valid_rune c then c else 0xFFFD].
 Definition s_global : str :=   (* "[object environment]": undefined this is replaced by the global object *)
   [91;111;98;106;101;99;116;32;101;110;118;105;114;111;110;109;101;110;116;93].
 
-(* checkObjectCoercible(call.This) (absent in substr) then call.This.string() *)
+(* checkObjectCoercible(call.This) then call.This.string() *)
 Definition this_gostring (m : meth) (r : recv) : option gostr :=
   match r with
   | RLit u | RCallStr u | RStrObj u | RObj u => Some (dec16 u)
   | RNumR n => Some (int_text n)
   | RBoolR b => Some (if b then s_true else s_false)
   | RUndef => Some s_global
-  | RNull => match m with MSubstr => Some s_null | _ => None end
+  | RNull => None
   end.
 
 Definition arg_gostring (a : arg) : option gostr := option_map dec16 (to_string a).
